@@ -67,7 +67,7 @@ theorem C05_resurrection_clears_xattrs (r : Row) (ht : r.tomb = true) (hco : Row
     simp [setRow, setCore, hv] at h
     obtain ⟨rfl, _, _⟩ := h; exact ⟨rfl, rfl, rfl⟩
   · intro exp cas v o r' ev out h
-    obtain ⟨h1, h2⟩ := wcasRow_shape k exp cas (some v) o nc now (some r) r' ev out h
+    obtain ⟨h1, h2, _⟩ := wcasRow_shape k exp cas (some v) o nc now (some r) r' ev out h
     exact ⟨h2 r rfl ht, by simpa using h1⟩
 
 /-- … and through `writeWithXattrs` with a body only the xattrs the call itself sets: the edits are applied to an
